@@ -187,6 +187,26 @@ def judge_response(raw: bytes, exc, reader, label, require_response=True):
     return out, status, root
 
 
+def judge_follow_up(response: bytes, c) -> list:
+    """The bytes after the first response: nothing (the connection was closed) or exactly one proper answer to the valid
+    follow-up request - the body of the first request must never be taken for a request."""
+    from vf.props.c17 import split_responses
+    try:
+        responses = split_responses(response)
+    except ValueError as ex:
+        return [(f'{P}/framing/keep-alive/response-stream-unparsable', str(ex)[:200])]
+    if len(responses) > 2:  # noqa: PLR2004
+        return [(f'{P}/framing/keep-alive/request-body-taken-for-a-request',
+                 f'{len(responses)} responses for 2 requests: {[r[0] for r in responses]}')]
+    if len(responses) == 2:  # noqa: PLR2004
+        status_line = responses[1][0]
+        if not re.match(r'HTTP/1\.[01] 20[02]', status_line):
+            return [(f'{P}/framing/keep-alive/valid-follow-up-request-rejected',
+                     f'first request: {c["method"]} {c["path"]!r} (answered "{responses[0][0]}"); the valid request that '
+                     f'followed on the same connection was answered "{status_line}"')]
+    return []
+
+
 # ---------------------------------------------------------------------------------------------------- framing
 
 def st_framing():
@@ -202,7 +222,9 @@ def st_framing():
         'coding': st.sampled_from(['none', 'none', 'gzip', 'gzip-corrupt', 'br', 'x-lz4', 'lz4-corrupt', 'GZIP', 'gzip,gzip']),
         'accept': st.sampled_from([None, 'gzip', 'gzip;q=0', '*', 'x-lz4, gzip', 'identity', 'gzip ; q = abc', ',,,']),
         'body': st.one_of(st.integers(0, 40), st.binary(max_size=60)), 'to': st.sampled_from(['provider', 'provider', 'consumer']),
-        'chunk_size': st.integers(1, 300)})
+        'chunk_size': st.integers(1, 300),
+        # a valid request follows on the same (keep-alive) connection
+        'follow': st.booleans()})
 
 
 def framing_case(ctx, c):
@@ -262,6 +284,17 @@ def framing_case(ctx, c):
         else:  # missing-crlf
             wire = ok.replace(b'\r\n', b'', 2)
     raw = http_request(c['method'], path, headers, wire, c['version'])
+    well_framed = (framing == 'none' and c['cl'] == 'exact') or framing in ('ok', 'ok-ext', 'upper-TE')
+    follow = None
+    # (only after a POST: a GET handler does not read a body, so the bytes sent as the body of a GET are the next request
+    # for the server as well as for any HTTP/1.1 intermediary - nothing valid can be said to follow them)
+    if c.get('follow') and well_framed and c['method'] == 'POST':
+        wanted = '/GetMdState' if c['to'] == 'provider' else 'Report'
+        follow = next((m for m in corpus if (m['action'] or '').endswith(wanted)), None)
+        if follow is not None:
+            raw += http_request('POST', follow['path'], [('Host', 'h'), ('Content-Type', 'application/soap+xml; charset=utf-8'),
+                                                         ('Content-Length', str(len(follow['body']))),
+                                                         ('Connection', 'close')], follow['body'])
     world = s['world']
     before = (C.canon_mdib(world.mdib), table_scan(world))
     response, exc, reader = M.handle_raw(s['mem'][c['to']], raw)
@@ -271,6 +304,8 @@ def framing_case(ctx, c):
     well_formed_request_line = c['method'] in ('POST', 'GET') and c['version'] in ('HTTP/1.1', 'HTTP/1.0') and bool(path) \
         and ' ' not in path
     out, status, root = judge_response(response, exc, reader, 'framing', require_response=well_formed_request_line)
+    if follow is not None and not out and status is not None:
+        out += judge_follow_up(response, c)
     accepted = status is not None and status < 300 and (root is None or root.find(f'{{{S12}}}Body/{{{S12}}}Fault') is None)
     if not accepted and not out:
         after = (C.canon_mdib(world.mdib), table_scan(world))
@@ -299,6 +334,8 @@ def st_mutation():
         st.tuples(st.just('truncate'), st.integers(1, 3000)).map(list),
         st.tuples(st.just('prefix'), st.sampled_from(['bom', 'utf16', 'latin1decl', 'junk', 'ws'])).map(list),
         st.tuples(st.just('xinclude'), st.integers(0, 200)).map(list),
+        # a comment of more than 1 MiB (size-dependent code paths of the reader)
+        st.tuples(st.just('pad'), st.sampled_from([70_000, 1_100_000])).map(list),
     )
     return st.tuples(st.integers(0, 60), st.lists(m, min_size=1, max_size=3))
 
@@ -378,7 +415,11 @@ def apply_mutations(base, muts, s):
         data = decl.encode() + data.replace(b'VFENTITYREF', b'&xxe;')
         _ = ent_used
     for mu in post:
-        if mu[0] == 'truncate':
+        if mu[0] == 'pad':
+            cut = data.find(b'>', data.find(b'Envelope')) + 1
+            if cut > 0:
+                data = data[:cut] + b'<!--' + b'p' * mu[1] + b'-->' + data[cut:]
+        elif mu[0] == 'truncate':
             data = data[:mu[1]]
         elif mu[0] == 'prefix':
             if mu[1] == 'bom':
@@ -434,10 +475,110 @@ def soap_case(ctx, case):
     return out
 
 
+# ---------------------------------------------------------------------------------- consumer with the deferred dispatcher
+def deferred_session():
+    """A second consumer with the library's default (deferred) dispatcher: requests are answered at once and handled by
+    a worker thread.  The worker is part of the endpoint: it has to survive every request."""
+    s = session()
+    if 'deferred' in s:
+        return s['deferred']
+    from sdc11073 import observableproperties as properties
+    world = s['world']
+    consumer, _ = world.add_consumer(init_mdib=False, deferred=True)
+    server = world.consumers[-1][2]
+    mem = M.MemServer()
+    mem.dispatcher = server.dispatcher
+    seen = []
+    properties.strongbind(consumer, state_event_report=lambda v: seen.append(v))
+    # a valid notification for this consumer: commit once and take it from the wire
+    mdib = world.mdib
+    h = sorted(st_.DescriptorHandle for st_ in mdib.states.objects if st_.is_metric_state
+               and not st_.is_realtime_sample_array_metric_state)[0]
+    log0 = len(L.NET.log)
+    with mdib.metric_state_transaction() as mgr:
+        mgr.get_state(h).ActivationState = mdib.data_model.pm_types.ComponentActivation.ON
+    valid = [e for e in L.NET.log[log0:] if e.netloc == server.netloc and e.action and e.action.endswith('EpisodicMetricReport')]
+    end = None
+    for sub in consumer.subscription_mgr.subscriptions.values():
+        end = sub.end_to_url
+    # a SubscriptionEnd as the provider sends it (taken from the wire of a throw-away consumer)
+    extra = []
+    tmp_consumer, _ = world.add_consumer(init_mdib=False)
+    tmp_netloc = world.consumers[-1][2].netloc
+    log0 = len(L.NET.log)
+    for mgr in world.provider._subscriptions_managers.values():  # noqa: SLF001
+        for psub in list(mgr._subscriptions.objects):  # noqa: SLF001
+            if psub.notify_to_url.netloc == tmp_netloc:
+                psub.send_notification_end_message()
+                break
+    for e in L.NET.log[log0:]:
+        if e.netloc == tmp_netloc and e.action and e.action.endswith('SubscriptionEnd'):
+            extra.append({'to': 'consumer', 'path': e.path, 'body': e.request, 'action': e.action})
+            break
+    d = {'consumer': consumer, 'mem': mem, 'seen': seen, 'valid': valid[0], 'dispatcher': consumer._services_dispatcher,  # noqa: SLF001
+         'prefix': '/' + consumer.path_prefix, 'end_to': end, 'extra': extra}
+    _wait_processed(d, len(seen) + 0, first=True)
+    s['deferred'] = d
+    return d
+
+
+def _wait_processed(d, n_before, first=False, timeout=3.0):
+    import time
+    t_end = time.monotonic() + timeout
+    while time.monotonic() < t_end:
+        if (first or len(d['seen']) > n_before) and d['dispatcher']._queue.empty():  # noqa: SLF001
+            return True
+        time.sleep(0.005)
+    return False
+
+
+def deferred_case(ctx, case):
+    idx, muts = case
+    s = session()
+    d = deferred_session()
+    corpus = d['extra'] * 2 + [m for m in s['corpus'] if m['to'] == 'consumer']
+    base = dict(corpus[idx % len(corpus)])
+    # the corpus was recorded for the first consumer: same messages, this consumer's paths
+    sub_path = base['path'].strip('/').split('/', 1)[1] if '/' in base['path'].strip('/') else ''
+    base['path'] = f'{d["prefix"]}/{sub_path}'
+    path, data = apply_mutations(base, muts, s)
+    raw = http_request('POST', path, [('Host', 'h'), ('Content-Type', 'application/soap+xml; charset=utf-8'),
+                                      ('Content-Length', str(len(data)))], data)
+    response, exc, reader = M.handle_raw(d['mem'], raw)
+    out, _status, _root = judge_response(response, exc, reader, 'deferred', require_response=bool(path) and ' ' not in path)
+    ctx.case(case, True, 'deferred', classes=tuple({m[0] for m in muts}))
+    worker = d['dispatcher']._worker  # noqa: SLF001
+    _wait_processed(d, 0, first=True, timeout=2.0)
+    if not worker.is_alive():
+        out.append((f'{P}/deferred/worker-thread-died', f'after POST {path!r} with mutations {R.short(muts, 200)}'))
+        s.pop('deferred', None)  # a fresh consumer for the next case
+        return out
+    # a valid notification afterwards is still processed
+    n = len(d['seen'])
+    v = d['valid']
+    raw = http_request('POST', v.path, [('Host', 'h'), ('Content-Type', 'application/soap+xml; charset=utf-8'),
+                                        ('Content-Length', str(len(v.request)))], v.request)
+    M.handle_raw(d['mem'], raw)
+    if not _wait_processed(d, n, timeout=3.0) and not worker.is_alive():
+        out.append((f'{P}/deferred/worker-thread-died', f'after POST {path!r} with mutations {R.short(muts, 200)}'))
+        s.pop('deferred', None)
+    elif len(d['seen']) <= n:
+        ctx.count('deferred/valid-notification-not-seen-within-3s (inconclusive)')
+    return out
+
+
+def st_deferred_mutation():
+    return st.tuples(st.integers(0, 60), st.lists(st.one_of(
+        st_mutation().map(lambda t: t[1][0]),
+        st.tuples(st.just('path'), st.sampled_from(['PREFIXONLY', 'PREFIXONLY', 'SUFFIX/x', '/nope'])).map(list)), min_size=1, max_size=3))
+
+
 def shard(ctx, which, n):
     W.quiet_logging()
     try:
-        if which == 'framing':
+        if which == 'deferred':
+            R.hyp_campaign(ctx, which, st_deferred_mutation(), lambda c: deferred_case(ctx, c), n)
+        elif which == 'framing':
             R.hyp_campaign(ctx, which, st_framing(), lambda c: framing_case(ctx, c), n)
         else:
             R.hyp_campaign(ctx, which, st_mutation(), lambda c: soap_case(ctx, c), n)
@@ -447,7 +588,8 @@ def shard(ctx, which, n):
 
 def run(ctx):
     q = ctx.tier == 'quick'
-    R.run_shards(ctx, __name__, 'shard', [('framing', 500 if q else 40000)] * 8 + [('soap', 350 if q else 15000)] * 8)
+    R.run_shards(ctx, __name__, 'shard', [('framing', 500 if q else 40000)] * 7 + [('soap', 350 if q else 15000)] * 7 + [
+        ('deferred', 150 if q else 6000)] * 2)
 
 
 def replay(part, case):
@@ -456,6 +598,8 @@ def replay(part, case):
     try:
         if part == 'framing':
             return framing_case(ctx, case)
+        if part == 'deferred':
+            return deferred_case(ctx, (case[0], [list(m) for m in case[1]]))
         return soap_case(ctx, (case[0], [list(m) for m in case[1]]))
     finally:
         close_session()
